@@ -14,11 +14,16 @@ import math
 import random
 
 import numpy as np
+import scipy.sparse as sps
 
 from harness.core import Prop, clist
+from harness.props import c01 as C01
 
 import porepy as pp
-from porepy.applications.md_grids.model_geometries import RectangularDomainThreeFractures
+from porepy.applications.md_grids.model_geometries import (
+    OrthogonalFractures3d,
+    RectangularDomainThreeFractures,
+)
 from porepy.numerics.ad import functions as adf
 
 FAMILIES = {
@@ -34,10 +39,11 @@ TABLE_FUNCTIONS = {"exp", "log", "abs", "sin", "cos", "tan", "arcsin", "arccos",
                    "heaviside_smooth", "maximum", "characteristic_function", "l2_norm"}
 
 
-def make_model(family, nfrac, cartesian):
+def make_model(family, nfrac, cartesian, dim=2):
     cls = FAMILIES[family]()
+    geometry = RectangularDomainThreeFractures if dim == 2 else OrthogonalFractures3d
 
-    class Model(RectangularDomainThreeFractures, cls):
+    class Model(geometry, cls):
         pass
 
     fluid = pp.FluidComponent(compressibility=0.2, density=1.3, viscosity=0.7,
@@ -170,6 +176,306 @@ def census(model):
 
 
 # ----------------------------------------------------------------------------------------
+# non-smooth nodes: distance of a state from the kinks, branches taken
+# ----------------------------------------------------------------------------------------
+KINK_MARGIN = 1e-3      # explicit margin to every kink (difference-quotient steps <= ~5e-5)
+
+
+def _partial_args(op):
+    inner = getattr(getattr(getattr(op, "func", None), "__self__", None), "_func", None)
+    args = []
+    while isinstance(inner, functools.partial):
+        args = list(inner.args) + args
+        inner = inner.func
+    return args
+
+
+def _depends_on_current(op, cache):
+    """The sub-expression contains a current-iterate variable (is not a constant)."""
+    k = id(op)
+    if k not in cache:
+        if isinstance(op, pp.ad.Variable):
+            cache[k] = not (getattr(op, "is_previous_time", False)
+                            or getattr(op, "is_previous_iterate", False))
+        else:
+            cache[k] = any(_depends_on_current(c, cache)
+                           for c in (getattr(op, "children", []) or []))
+    return cache[k]
+
+
+def nonsmooth_nodes(model):
+    out, seen, dep = [], set(), {}
+
+    def walk(op):
+        opn = getattr(op, "operation", None)
+        if opn is not None and opn.name == "evaluate" and id(op) not in seen:
+            seen.add(id(op))
+            name, ok = _func_name(op)
+            short = name.split(".")[-1]
+            if ok and short in ("maximum", "abs", "l2_norm", "heaviside", "characteristic_function") \
+                    and _depends_on_current(op, dep):      # constant nodes have no derivative
+                out.append((short, op))
+        for c in getattr(op, "children", []) or []:
+            walk(c)
+
+    for eq in model.equation_system.equations.values():
+        walk(eq)
+    return out
+
+
+def kink_report(model, nodes):
+    """Per non-smooth node: distance to its kink and the branches taken at the current
+    state (arguments evaluated by the implementation itself)."""
+    es = model.equation_system
+    rep = {}
+    for k, (short, op) in enumerate(nodes):
+        vals = [np.atleast_1d(np.asarray(c.value(es), dtype=float)) for c in op.children]
+        key = f"{short}#{k}:{op.name[:40]}"
+        if any(v.size == 0 for v in vals):
+            continue
+        if short == "maximum":
+            a, b = np.broadcast_arrays(vals[0], vals[1])
+            d = a - b
+            rep[key] = {"margin": float(np.min(np.abs(d))),
+                        "branches": [int((d >= 0).sum()), int((d < 0).sum())]}
+        elif short in ("abs", "heaviside"):
+            x = vals[-1]
+            rep[key] = {"margin": float(np.min(np.abs(x))),
+                        "branches": [int((x > 0).sum()), int((x < 0).sum())]}
+        elif short == "characteristic_function":
+            tol = float(_partial_args(op)[0])
+            x = np.abs(vals[-1])
+            # an argument that is exactly 0.0 comes from a constant branch (max(., 0)) and
+            # stays 0 under perturbation; otherwise the difference quotients disagree and
+            # the row is skipped by the oracle's consistency filter
+            dist = np.where(x == 0.0, np.inf, np.abs(x - tol))
+            rep[key] = {"margin": float(min(np.min(dist), 1.0)),
+                        "branches": [int((x <= tol).sum()), int((x > tol).sum())]}
+        elif short == "l2_norm":
+            dim = int(_partial_args(op)[0])
+            x = vals[-1]
+            if dim == 1:
+                rep[key] = {"margin": float(np.min(np.abs(x))),
+                            "branches": [int((x > 0).sum()), int((x < 0).sum())]}
+            else:
+                blk = x.reshape((dim, -1), order="F")
+                nrm = np.linalg.norm(blk, axis=0)
+                zc = int(((blk == 0).any(axis=0) & (nrm > KINK_MARGIN)).sum())
+                rep[key] = {"margin": float(np.min(nrm)), "branches": [int(nrm.size), 0],
+                            "blocks_with_exact_zero_component": zc}
+    return rep
+
+
+def structured_state(model, rs, x):
+    """Overwrite the contact variables with a patterned state: fracture cells with
+    negative / positive normal jump and traction, tangential parts with an exact zero along
+    one axis (3-D) or of both signs (2-D), small and large relative to the friction bound."""
+    es = model.equation_system
+    nd = model.nd
+    x = x.copy()
+    for var in es.variables:
+        dofs = es.dofs_of([var])
+        if var.name == "contact_traction":
+            nc = dofs.size // nd
+            t = np.zeros((nd, nc))
+            off = int(rs.integers(0, 4))
+            for c in range(nc):
+                # normal traction (local): compressive and tensile cells alternate
+                t[nd - 1, c] = [-1.0, 0.5, -0.25, -2.0][(c + off) % 4]
+                tang = rs.choice([0.125, -0.25, 2.0, -3.0], size=nd - 1)
+                if nd == 3 and rs.random() < 0.6:
+                    tang[rs.integers(0, 2)] = 0.0                            # exact zero
+                t[: nd - 1, c] = tang
+            x[dofs] = t.ravel("F")
+        elif var.name == "u_interface":
+            intf = var.domain
+            nc = dofs.size // nd
+            half = nc // 2
+            u = np.zeros((nd, nc))
+            sd_pair = model.mdg.interface_to_subdomain_pair(intf)
+            frac = sd_pair[1]
+            spread = np.ptp(frac.nodes, axis=1)[:nd]
+            normal_axis = int(np.argmin(spread))
+            off = int(rs.integers(0, 4))
+            for c in range(half, nc):
+                vec = rs.choice([0.25, -0.5, 0.75, -0.125], size=nd)
+                # normal jump: cells of both signs alternate
+                vec[normal_axis] = [-0.5, 0.25, -0.125, 0.75][(c + off) % 4]
+                if nd == 3 and rs.random() < 0.6:
+                    tang_axes = [a for a in range(nd) if a != normal_axis]
+                    vec[tang_axes[rs.integers(0, 2)]] = 0.0                  # exact zero
+                u[:, c] = vec
+            x[dofs] = u.ravel("F")
+    return x
+
+
+# ----------------------------------------------------------------------------------------
+# numerical tie of the census: each real equation, translated node by node into the C01
+# tree language with the real matrices/arrays as constants, evaluates (value and
+# Jacobian, by direct forward mode on AdArrays) to what the equation system assembles
+# ----------------------------------------------------------------------------------------
+class Untranslatable(Exception):
+    pass
+
+
+def _slicer_matrix(S):
+    """The matrix of the linear map  y -> S @ y  of an ArraySlicer, including operations
+    left pending on it by compositions (A @ S, c * S); other pending kinds are not linear."""
+    rows = np.asarray(S.range_indices)
+    cols = np.asarray(S.domain_indices)
+    M = sps.coo_matrix((np.ones(rows.size), (rows, cols)),
+                       shape=(int(S.range_size), int(S.domain_size))).tocsr()
+    for operand, operation in (getattr(S, "_pending", None) or []):
+        if operation == "@":
+            A = _slicer_matrix(operand) if isinstance(operand, pp.matrix_operations.ArraySlicer) \
+                else operand
+            if not sps.issparse(A):
+                raise Untranslatable("pending @ with a non-matrix operand")
+            M = sps.csr_matrix(A @ M)
+        elif operation == "*":
+            c = np.asarray(operand, dtype=float)
+            d = np.full(M.shape[0], float(c)) if c.ndim == 0 else c
+            M = sps.csr_matrix(sps.diags(d) @ M)
+        else:
+            raise Untranslatable(f"ArraySlicer with pending '{operation}'")
+    probe = np.arange(1.0, S.domain_size + 1.0)
+    if not np.allclose(np.asarray(S @ probe), M @ probe, rtol=1e-13, atol=0):
+        raise Untranslatable("ArraySlicer is not the matrix of its index pairs")
+    return M
+
+
+def _matrix_spec(M):
+    M = sps.csr_matrix(M)
+    rows = []
+    for i in range(M.shape[0]):
+        lo, hi = M.indptr[i], M.indptr[i + 1]
+        rows.append([[int(j), float(a)] for j, a in zip(M.indices[lo:hi], M.data[lo:hi])])
+    return {"shape": [int(M.shape[0]), int(M.shape[1])], "rows": rows, "fmt": "csr"}
+
+
+def _const_value(op, es):
+    v = op.value(es)
+    if isinstance(v, list):          # ProjectionList: sum of the slicers
+        M = None
+        for S in v:
+            Mi = _slicer_matrix(S)
+            M = Mi if M is None else M + Mi
+        return M
+    if isinstance(v, pp.matrix_operations.ArraySlicer):
+        return _slicer_matrix(v)
+    return v
+
+
+def _as_cst(v):
+    if sps.issparse(v):
+        raise Untranslatable("sparse constant as elementwise operand")
+    a = np.asarray(v, dtype=float)
+    if a.ndim == 0:
+        return ["s", float(a)]
+    return ["a", [float(t) for t in a]]
+
+
+def translate(op, es):
+    """('t', tree) for sub-expressions depending on current-iterate variables, ('c', value)
+    for constants (evaluated by the implementation)."""
+    opn = getattr(op, "operation", None)
+    opname = opn.name if opn is not None else "void"
+    kids = list(getattr(op, "children", []) or [])
+    if opname == "void" or (not kids and opname != "evaluate"):
+        if isinstance(op, pp.ad.Variable) and not (
+                getattr(op, "is_previous_time", False) or getattr(op, "is_previous_iterate", False)):
+            subs = getattr(op, "sub_vars", None) or [op]
+            dofs = np.concatenate([es.dofs_of([v]) for v in subs]) if len(subs) else np.zeros(0, int)
+            return "t", ["slice", ["idx", [int(d) for d in dofs]], ["var", 0]]
+        return "c", _const_value(op, es)
+    parts = [translate(c, es) for c in kids]
+    if all(k == "c" for k, _ in parts):
+        return "c", _const_value(op, es)
+    if opname == "neg":
+        return "t", ["neg", parts[0][1]]
+    if opname == "evaluate":
+        name, ok = _func_name(op)
+        if not ok:
+            raise Untranslatable(name)
+        short = name.split(".")[-1]
+        pargs = _partial_args(op)
+        if short == "maximum":
+            (ka, a), (kb, b) = parts
+            if ka == "t" and kb == "t":
+                return "t", ["max", a, b]
+            if ka == "t":
+                return "t", ["maxkr", a, _as_cst(b)]
+            return "t", ["maxkl", _as_cst(a), b]
+        (k0, a), = parts
+        if short == "l2_norm":
+            return "t", ["l2", int(pargs[0]), a]
+        if short == "characteristic_function":
+            return "t", ["fun", "characteristic", float(pargs[0]), a]
+        if short == "heaviside":
+            return "t", ["fun", "heaviside", float(pargs[0]), a]
+        if short == "heaviside_smooth":
+            raise Untranslatable("heaviside_smooth with keyword eps")
+        return "t", ["fun", short, None, a]
+    if len(parts) != 2:
+        raise Untranslatable(f"{opname} with {len(parts)} operands")
+    (ka, a), (kb, b) = parts
+    if opname == "matmul":
+        if ka == "c" and kb == "t" and sps.issparse(a):
+            return "t", ["matmul", _matrix_spec(a), b]
+        raise Untranslatable("matmul operand kinds")
+    binname = {"add": "add", "sub": "sub", "mul": "mul", "div": "div", "pow": "pow"}.get(opname)
+    if binname is None:
+        raise Untranslatable(opname)
+    if ka == "t" and kb == "t":
+        return "t", [binname, a, b]
+    if ka == "t":
+        node = {"add": "addk", "sub": "subk", "mul": "mulk", "div": "divk", "pow": "powk"}[opname]
+        return "t", [node, a, _as_cst(b)]
+    node = {"add": "raddk", "sub": "rsubk", "mul": "rmulk", "div": "rdivk", "pow": "rpowk"}[opname]
+    return "t", [node, b, _as_cst(a)]
+
+
+def tree_tie(model, x):
+    """Compare every equation with its translated C01 tree at the state x."""
+    es = model.equation_system
+    n = x.size
+    X = pp.ad.AdArray(x.copy(), sps.identity(n, format="csr"))
+    out = {"equations": 0, "translated": 0, "untranslatable": [], "max_val_err": 0.0,
+           "max_jac_err": 0.0, "nodes": 0, "mismatch": []}
+    for name, eq in es.equations.items():
+        out["equations"] += 1
+        ref = eq.value_and_jacobian(es)
+        if ref.val.size == 0:
+            out["translated"] += 1
+            continue
+        try:
+            kind, tree = translate(eq, es)
+        except Untranslatable as e:
+            out["untranslatable"].append(f"{name}: {e}")
+            continue
+        if kind != "t":
+            out["untranslatable"].append(f"{name}: constant equation")
+            continue
+        try:
+            r = C01.build(tree, [X])
+        except Exception as e:   # the translated tree is not well-formed: report, do not hide
+            out["mismatch"].append(f"{name} (translated tree does not evaluate: {type(e).__name__}: {e})"[:200])
+            continue
+        out["translated"] += 1
+        out["nodes"] += sum(1 for _ in C01.subtrees(tree))
+        scale_v = 1.0 + float(np.max(np.abs(ref.val)))
+        ev = float(np.max(np.abs(r.val - ref.val))) / scale_v
+        D = (r.jac - ref.jac)
+        scale_j = 1.0 + (float(np.max(np.abs(ref.jac.data))) if ref.jac.nnz else 0.0)
+        ej = (float(np.max(np.abs(D.data))) if D.nnz else 0.0) / scale_j
+        out["max_val_err"] = max(out["max_val_err"], ev)
+        out["max_jac_err"] = max(out["max_jac_err"], ej)
+        if ev > 1e-10 or ej > 1e-10:
+            out["mismatch"].append(name)
+    return out
+
+
+# ----------------------------------------------------------------------------------------
 class C03(Prop):
     id = "C03"
     props_file = "Props/C03.v"
@@ -182,7 +488,7 @@ class C03(Prop):
                 "  | _ => false end.\n"
                 "Definition rows_ok (sizes : list nat) (rows : list (nat * (nat * nat))) : bool :=\n"
                 "  forallb (fun rki => loc_ok sizes (fst rki) (fst (snd rki)) (snd (snd rki))) rows.\n")
-    n_cases = (10, 60)
+    n_cases = (16, 96)
     design_ref = "DESIGN.md §5 C03"
     technique = ("Coq proof (corollary of the C01 composition theorem over stacked equation trees) "
                  "+ census of the real operator trees + directional finite-difference oracle")
@@ -194,23 +500,31 @@ class C03(Prop):
         "derivative of that residual row along v (matrices held fixed); C03_residual_value, "
         "C03_rows_located.  Per run: the stacking model is compared in Coq with the real "
         "assembly's row blocks; every node of the real equation trees of the shipped model "
-        "families is classified as covered by the proved table or not (census in the "
-        "evidence); the whole assembled system, covered or not, is checked by directional finite "
-        "differences at random states.")
+        "families is classified as covered by the proved table or not (census in the evidence); "
+        "every real equation is translated node by node into a tree of the C01 language with the "
+        "real matrices/arrays as constants, and that tree, evaluated by direct forward mode on "
+        "AdArrays, reproduces the equation's assembled value and Jacobian at the tested states; "
+        "the whole assembled system is checked by directional finite differences at random and "
+        "at structured states (contact cells of both signs of normal jump/traction, exact zeros "
+        "in one tangential component in 3-D, stick and slip), with an explicit margin to every "
+        "kink and a measured branch coverage of every max/abs/l2_norm/characteristic node.")
     level_note = (
         "Strength P-method: the theorem is about trees in the C01 language; that a real model "
-        "equation IS such a tree is a checked census (node kinds and operand kinds, not the "
-        "numerical content of the matrices), plus C02 for the parser dispatch (other builder).  "
-        "Uncovered nodes (custom pp.ad.Function closures, other AbstractFunction classes) are "
-        "named in evidence and are covered by the finite-difference oracle only.  The oracle "
-        "skips (and counts) directions where the difference quotients at two step sizes disagree "
-        "with each other (kinks of max/abs/contact conditions).  Projection operators are counted "
-        "as row selections (ArraySlicer, property C36).  Not proved: discretisation matrices are "
+        "equation IS such a tree is checked per run structurally (census) and numerically (the "
+        "translated tree reproduces value and Jacobian; constants - also products of fixed "
+        "matrices and slicers - are taken from the implementation's own evaluation), plus C02 for "
+        "the parser dispatch (other builder).  Uncovered nodes (custom pp.ad.Function closures, "
+        "other AbstractFunction classes) would be named in evidence and covered by the "
+        "finite-difference oracle only; none occurs in the five shipped families.  States closer "
+        "than the margin to a kink after 8 re-draws are counted in evidence; rows whose difference "
+        "quotients at two step sizes disagree are skipped and counted.  Projection operators are "
+        "row selections (ArraySlicer, property C36).  Not proved: discretisation matrices are "
         "correct; IEEE rounding.")
-    rule = ("model family x {0,1(,2)} fractures x {Cartesian, simplex} on a 2x2-ish grid with "
-            "non-trivial material constants (compressible fluid etc.); state = initial state + "
-            "uniform random perturbation; 3 random directions per state; quick: SinglePhaseFlow and "
-            "MassAndEnergyBalance; thorough: all five families")
+    rule = ("model family x {0,1,2} fractures x {Cartesian, simplex} x {2-D, 3-D} on a coarse grid with "
+            "non-trivial material constants (compressible fluid etc.); states alternate between "
+            "random (initial state + uniform perturbation) and structured (patterned contact "
+            "traction and interface displacement); 3 random directions per state; quick: 8 "
+            "configurations incl. all five families and one 3-D; thorough: 24 configurations")
     trusted = ["census classifier (harness) maps porepy operator classes to the node kinds of the "
                "C01 expression language",
                "finite-difference oracle tolerances (1e-5 relative per row against the row's "
@@ -223,47 +537,77 @@ class C03(Prop):
         self._census = {}
         self._skipped = 0
         self._checked = 0
+        self._nodes = {}
+        self._branches = {}
+        self._tree = {"equations": 0, "translated": 0, "nodes": 0, "max_val_err": 0.0,
+                      "max_jac_err": 0.0, "untranslatable": set(), "mismatch": set()}
+        self._near_kink = 0
 
     def generate(self, rng, n, tier):
+        # (family, fractures, cartesian, dimension)
         if tier == "quick":
-            configs = [("SinglePhaseFlow", 0, True), ("SinglePhaseFlow", 1, True),
-                       ("SinglePhaseFlow", 1, False), ("MassAndEnergyBalance", 1, True)]
+            configs = [("SinglePhaseFlow", 0, True, 2), ("SinglePhaseFlow", 1, True, 2),
+                       ("SinglePhaseFlow", 1, False, 2), ("MassAndEnergyBalance", 1, True, 2),
+                       ("MomentumBalance", 1, True, 2), ("MomentumBalance", 1, True, 3),
+                       ("Poromechanics", 2, True, 2), ("Thermoporomechanics", 1, True, 2)]
         else:
             configs = []
             for fam in FAMILIES:
                 for nf in (0, 1, 2):
-                    configs.append((fam, nf, True))
-                configs.append((fam, 1, False))
+                    configs.append((fam, nf, True, 2))
+                configs.append((fam, 1, False, 2))
+            configs += [("MomentumBalance", 1, True, 3), ("Poromechanics", 1, True, 3),
+                        ("Thermoporomechanics", 2, True, 3), ("SinglePhaseFlow", 2, True, 3)]
         i = 0
         while i < n:
-            fam, nf, cart = configs[i % len(configs)]
-            yield {"family": fam, "nfrac": nf, "cartesian": cart,
+            fam, nf, cart, dim = configs[(i // 2) % len(configs)]
+            yield {"family": fam, "nfrac": nf, "cartesian": cart, "dim": dim,
+                   "state": "random" if i % 2 == 0 else "structured",
                    "seed": rng.randrange(10 ** 6), "amplitude": rng.choice([0.1, 0.3, 0.5])}
             i += 1
 
     def _model(self, case):
-        key = (case["family"], case["nfrac"], case["cartesian"])
+        key = (case["family"], case["nfrac"], case["cartesian"], case.get("dim", 2))
         if key not in self._models:
-            if len(self._models) >= 3:
+            if len(self._models) >= 2:
                 self._models.pop(next(iter(self._models)))
             m = make_model(*key)
             self._models[key] = m
+            self._nodes[key] = nonsmooth_nodes(m)
             cov, unc = census(m)
-            self._census["%s/%dfrac/%s" % (key[0], key[1], "cart" if key[2] else "simplex")] = {
+            self._census["%s/%dfrac/%s/%dd" % (key[0], key[1], "cart" if key[2] else "simplex", key[3])] = {
                 "covered": dict(sorted(cov.items())), "uncovered": dict(sorted(unc.items())),
                 "num_dofs": int(m.equation_system.num_dofs()),
                 "equations": list(m.equation_system.equations.keys())}
-        return self._models[key]
+        return self._models[key], self._nodes[key]
+
+    def _state(self, m, nodes, case, rs, x_init):
+        """A state with an explicit margin to every kink (re-drawn up to 8 times)."""
+        es = m.equation_system
+        best = None
+        for attempt in range(8):
+            x = x_init + case["amplitude"] * rs.uniform(-1.0, 1.0, size=x_init.size) + \
+                0.5 * case["amplitude"]
+            if case.get("state") == "structured":
+                x = structured_state(m, rs, x)
+            es.set_variable_values(x, iterate_index=0)
+            rep = kink_report(m, nodes)
+            margin = min([r["margin"] for r in rep.values()], default=1.0)
+            if best is None or margin > best[2]:
+                best = (x, rep, margin)
+            if margin >= KINK_MARGIN:
+                break
+        return best
 
     def run_impl(self, case):
-        m = self._model(case)
+        m, nodes = self._model(case)
         es = m.equation_system
         rs = np.random.default_rng(case["seed"])
         x_init = es.get_variable_values(iterate_index=0).copy()
         try:
-            x = x_init + case["amplitude"] * rs.uniform(-1.0, 1.0, size=x_init.size) + \
-                0.5 * case["amplitude"]
+            x, kinks, margin = self._state(m, nodes, case, rs, x_init)
             es.set_variable_values(x, iterate_index=0)
+            tie = tree_tie(m, x)
             J, rhs = es.assemble()
             J = J.tocsr()
             blocks = [(name, [int(i) for i in idx])
@@ -297,11 +641,29 @@ class C03(Prop):
                     "bad_rows": [int(b) for b in bad[:5]],
                     "bad_detail": [[float(jv[b]), float(fds[1][b]), float(scale[b])] for b in bad[:5]],
                 })
-            return {"dofs": int(x.size), "blocks": blocks, "dirs": dirs}
+            return {"dofs": int(x.size), "blocks": blocks, "dirs": dirs, "kinks": kinks,
+                    "kink_margin": float(margin), "tree_tie": tie}
         finally:
             es.set_variable_values(x_init, iterate_index=0)
 
     def oracle(self, case, res):
+        fam = "%s/%dd" % (case["family"], case.get("dim", 2))
+        for k, r in res.get("kinks", {}).items():
+            name = fam + ":" + k.split(":")[0].split("#")[0] + ":" + k.split(":", 1)[1]
+            b = self._branches.setdefault(name, [0, 0, 0])
+            b[0] += r["branches"][0]
+            b[1] += r["branches"][1]
+            b[2] += r.get("blocks_with_exact_zero_component", 0)
+        if res.get("kink_margin", 1.0) < KINK_MARGIN:
+            self._near_kink += 1
+        t = res.get("tree_tie")
+        if t:
+            for k in ("equations", "translated", "nodes"):
+                self._tree[k] += t[k]
+            for k in ("max_val_err", "max_jac_err"):
+                self._tree[k] = max(self._tree[k], t[k])
+            self._tree["untranslatable"].update(t["untranslatable"])
+            self._tree["mismatch"].update(fam + ":" + n for n in t["mismatch"])
         for d in res["dirs"]:
             self._checked += d["rows"] - d["inconsistent_rows"]
             self._skipped += d["inconsistent_rows"]
@@ -321,7 +683,9 @@ class C03(Prop):
                 rows.append(f"({r}%nat, ({k}%nat, {i}%nat))")
         if len(rows) > 3000:
             rows = rows[::7]
-        return f"rows_ok {clist(sizes, lambda s: f'{s}%nat')} {clist(rows)}"
+        t = res.get("tree_tie", {})
+        tree_ok = "true" if not t.get("mismatch") else "false"
+        return f"andb (rows_ok {clist(sizes, lambda s: f'{s}%nat')} {clist(rows)}) {tree_ok}"
 
     def nontrivial(self, case, res):
         return res["dofs"] > 4
@@ -334,7 +698,19 @@ class C03(Prop):
 
     def extra_evidence(self):
         unc = sorted({k for c in self._census.values() for k in c["uncovered"]})
+        one_sided = sorted(k for k, b in self._branches.items()
+                           if (b[0] == 0 or b[1] == 0) and ":l2_norm:" not in k)
+        tr = dict(self._tree)
+        tr["untranslatable"] = sorted(tr["untranslatable"])
+        tr["mismatch"] = sorted(tr["mismatch"])
         return {"census": self._census, "uncovered_node_kinds": unc,
+                "nonsmooth_branch_coverage": {k: {"first/positive": b[0], "second/negative": b[1],
+                                                   "l2_blocks_with_exact_zero_component": b[2]}
+                                              for k, b in sorted(self._branches.items())},
+                "nonsmooth_nodes_with_one_branch_only": one_sided,
+                "states_closer_than_margin_to_a_kink": self._near_kink,
+                "kink_margin": KINK_MARGIN,
+                "tree_tie_numeric": tr,
                 "oracle_rows_checked": self._checked,
                 "oracle_rows_skipped_nonsmooth": self._skipped}
 
